@@ -5,23 +5,11 @@
    the inputs on which one of them *occurs*: the static classes are decided on the expression, the dynamic ones
    on the candidates the reference evaluation actually visits.
 
-   static   [(a) a predicate whose value is a non-literal number, and (b) and / or with non-boolean operands, were excluded
-             until /repo commits 6531d56 and 6c8d927 repaired them; they are inside in_subset now: a predicate may have
-             type number (position test) and the operands of and / or any type but a bare attribute value, which the
-             parser never puts there]
-            (i)  the text() function (and concat, which the proofs do not cover yet) -> ty_of
-            (k)  a comparison between an attribute and a boolean (XPath converts the node-set with boolean(); delb takes
-                 bool() of the attribute VALUE, and False for a missing attribute)
-            (n)  a string function (contains, starts-with, concat) applied to a number or boolean (no string conversion:
-                 TypeError in delb)
+   static   (i)  the text() function (documented, not XPath 1.0); concat (agrees, but the proofs do not cover it yet) -> ty_of
             (l)  an axis name that is not one of the eleven generators (AxOther), an unbound or empty prefix   -> deviate = None
-   dynamic  (m)  a string literal or attribute value containing whitespace that is not XML whitespace or a decimal digit
-                 that is not an ASCII digit (ast._to_number reads it as a number, XPath 1.0 as NaN)
-            [(c), (d), (e), (f) and most of (k) were excluded until /repo commits 6d4104b and 0f8d6d4]
-            [(g) an attribute value on a candidate that is not a tag node, and (h) the document node, were excluded until
-             /repo commits c8b3442 and c9f24a8; they are inside in_subset now.  What remains of (g) is (d)/(e): such a
-             candidate has no attributes, so @a != 's' and @a = '' are the missing-attribute cases]
-            (j)  a prefixed attribute whose namespace is the candidate's in-scope default namespace *)
+   dynamic  (j)  a prefixed attribute whose namespace is the candidate's in-scope default namespace       -> hazard
+   Every other class of the original list ((a)-(h), (k), and (m) (n) (o) found later) was repaired in /repo and is
+   inside in_subset now; findings.d/C06.json has the commits. *)
 From Delb.Base Require Import PyStr.
 From Delb.Tree Require Import ATree ITree.
 From Delb.XPath Require Import Ast Nav Num Eval Ref.
@@ -42,8 +30,7 @@ Fixpoint ty_of (e : expr) : option ty :=
       | Some a, Some b =>
           match o with
           | OpAnd | OpOr => if negb (ty_eqb a TAttr) && negb (ty_eqb b TAttr) then Some TBool else None
-          (* comparisons: every combination but attribute against boolean (class (k), what is left of it) *)
-          | _ => if (ty_eqb a TAttr && ty_eqb b TBool) || (ty_eqb a TBool && ty_eqb b TAttr) then None else Some TBool
+          | _ => Some TBool                                  (* comparisons: every combination *)
           end
       | _, _ => None
       end
@@ -53,7 +40,7 @@ Fixpoint ty_of (e : expr) : option ty :=
       if str_is name FN_position || str_is name FN_last then match tys with [] => Some TNum | _ => None end
       else if str_is name FN_not || str_is name FN_boolean then match tys with [Some _] => Some TBool | _ => None end
       else if str_is name FN_contains || str_is name FN_starts_with then
-        match tys with [Some a; Some b] => if stringy a && stringy b then Some TBool else None | _ => None end
+        match tys with [Some _; Some _] => Some TBool | _ => None end
       else None
   end.
 (* every attribute prefix is declared (an undeclared one is an XPathEvaluationError in delb and an error in XPath) *)
@@ -87,18 +74,10 @@ Definition attr_missing (m : nsmap) (p : option str) (l : str) (c : nd) : bool :
   match attr_of m p l c with Some _ => false | None => true end.
 Definition attr_empty (m : nsmap) (p : option str) (l : str) (c : nd) : bool :=
   match attr_of m p l c with Some v => null v | None => false end.
-(* (m): a string that may be converted to a number and that _to_number reads differently from XPath 1.0: it contains
-   whitespace that is not XML whitespace, or a decimal digit that is not an ASCII digit *)
-Definition opt_N_eqb (a b : option N) : bool :=
-  match a, b with Some x, Some y => N.eqb x y | None, None => true | _, _ => false end.
-Definition num_clean (s : str) : bool :=
-  forallb (fun c => Bool.eqb (is_ws c) (xml_ws c) && opt_N_eqb (py_digit c) (ascii_digit c)) s.
 Fixpoint hazard (m : nsmap) (e : expr) (c : nd) : bool :=
   match e with
-  | AnyValue (VStr s) => negb (num_clean s)                                     (* (m) *)
   | AnyValue _ => false
-  | AttributeValue p l =>
-      attr_j m p c || match attr_of m p l c with Some v => negb (num_clean v) | None => false end     (* (j), (m) *)
+  | AttributeValue p _ => attr_j m p c                                         (* (j) *)
   | HasAttribute p _ => attr_j m p c
   | BooleanOperator o l r => hazard m l c || hazard m r c
   | Function name args =>
